@@ -744,7 +744,6 @@ fn diff_fields(a: &Obj, b: &Obj) -> Vec<&'static str> {
 
 /// id of the known finding for "object typed circle/slider AND spinner makes the next object start a combo"
 pub const F_SPINNER_BIT: &str = "D15";
-pub const F_RESIDUE: &str = "D3";
 
 /// report a failure of a known class, but only the first 25 per class, so
 /// that the shared cap on recorded failures cannot hide an unlisted one
@@ -833,7 +832,7 @@ fn oracle_reference(mode: u8, lines: &[String], run: &Run, out: &mut Out) {
                     if fld == "new_combo" && amb {
                         fail_known(out, F_SPINNER_BIT, &input, "object starts a new combo although the previous object is not a spinner (its type has the spinner bit next to the circle/slider bit)");
                     } else if fld == "control_points" && residue_before > 0 {
-                        fail_known(out, F_RESIDUE, &input, &format!("slider carries {residue_before} control point(s) left behind by an earlier rejected slider line"));
+                        out.fail("", &input, &format!("slider carries control points left behind by an earlier rejected slider line ({residue_before} were pending): got {:?} expected {:?}", got, exp));
                     } else {
                         out.fail("", &input, &format!("field {fld} differs from the documented grammar: got {:?} expected {:?}", got, exp));
                     }
@@ -857,7 +856,7 @@ fn oracle_residue(mode: u8, lines: &[String], run: &Run, out: &mut Out) {
         let input = format!("mode {mode}: {}", lines.join(" \\n "));
         let left = lines.iter().zip(&run.res).zip(&run.residue).any(|((_, &r), &n)| r == 1 && n > 0);
         if left {
-            fail_known(out, F_RESIDUE, &input, "objects differ from the run without the rejected line(s): a rejected slider left control points behind");
+            out.fail("", &input, "objects differ from the run without the rejected line(s): a rejected slider left control points behind and they reached a later object");
         } else {
             out.fail("", &input, "objects differ from the run without the rejected line(s)");
         }
@@ -1231,7 +1230,7 @@ pub fn generate(tier: &str, seed: u64, out: &mut Out) {
     let s = |x: &str| x.to_string();
 
     // ---- corpus: recorded readings and findings first
-    // D3: a rejected slider leaves its first segments behind
+    // former D3 (repaired): a rejected slider must not leak its first segments into the next one
     run_case(0, &[s("1,1,0,2,0,B|100:100|L|200:0|P|x:0,1,300"), s("1,1,0,2,0,L|50:50,1,50")], out);
     // spinner bit next to the circle bit
     run_case(0, &[s("0,0,0,9,0"), s("0,0,0,1,0")], out);
